@@ -1,4 +1,5 @@
 import Sop.Model.Cache
+import Sop.Model.StoreInfoCache
 import Sop.Driver.Util
 /-! Line protocol of C20 (see harness/cmd/c20/main.go).
 
@@ -6,6 +7,15 @@ import Sop.Driver.Util
     read p nocheck|forreading|forwriting   -> <content|!> ok|err
     write p c                              -> ok|err
     dropmru p | droph p | flushl2          -> ok
+
+    case n si <label>                 store-info cache cases (Sop.Model.StoreInfoCache): no store exists
+    add <name> <count> <ts> <info>         -> ok          (StoreRepository.Add: file + cache entry)
+    upd <item> …                           -> ok|oknil|err   one StoreRepository.Update call, items in the caller's order
+         item = name:delta:ts:info:needsSave:fwd:und ; fwd/und = "-" or letters g(one) e(vict) r(getErr) R(fastRead)
+         w/W (fast write fails before/after effect) f/F (full write fails before/after effect) s(etStruct fails)
+    get <name>                             -> <count> <ts> <info> | none     cache-first read (Get / GetWithTTL)
+    disk <name>                            -> <count> <ts> <info> | none     the file (= what a cold process reads)
+    evict <name> | remove <name>           -> ok
 -/
 namespace Sop.Driver.C20
 open Sop.Driver Sop.Cache
@@ -34,7 +44,69 @@ def step (s : St) (ws : List String) : St × String :=
   | ["flushl2"] => go .flushL2
   | _ => (s, "bad-op")
 
-def run : IO Unit := runLoop reset step
+/-! ### store-info cache cases -/
+open Sop.SICache in
+def fltOf (w : String) : Flt :=
+  let has (c : Char) := w.toList.contains c
+  { gone := has 'g', evict := has 'e', getErr := has 'r', fastRead := has 'R',
+    fastWrite := if has 'W' then .after else if has 'w' then .before else .ok,
+    fullWrite := if has 'F' then .after else if has 'f' then .before else .ok,
+    setErr := has 's' }
+
+def intOf (w : String) : Option Int :=
+  match w.toList with
+  | '-' :: r => (String.ofList r).toNat?.map (fun n => -(Int.ofNat n))
+  | '+' :: r => (String.ofList r).toNat?.map Int.ofNat
+  | _ => w.toNat?.map Int.ofNat
+
+open Sop.SICache in
+def updOf (w : String) : Option Upd :=
+  match w.splitOn ":" with
+  | [n, d, t, i, ns, f, u] =>
+    match intOf d, t.toNat?, i.toNat? with
+    | some d, some t, some i => some { name := n, delta := d, ts := t, info := i, needsSave := ns == "1", fwd := fltOf f, und := fltOf u }
+    | _, _, _ => none
+  | _ => none
+
+open Sop.SICache in
+def showRec : Option Rec → String
+  | some r => s!"{r.count} {r.ts} {r.info}"
+  | none => "none"
+
+open Sop.SICache in
+def stepSI (s : SICache.St) (ws : List String) : SICache.St × String :=
+  match ws with
+  | ["add", n, c, t, i] =>
+    match intOf c, t.toNat?, i.toNat? with
+    | some c, some t, some i => (s.add n ⟨c, t, i⟩, "ok")
+    | _, _, _ => (s, "bad-op")
+  | "upd" :: items =>
+    match items.mapM updOf with
+    | some l =>
+      let (s', r) := update s l
+      (s', match r with | .ok => "ok" | .okNil => "oknil" | .err => "err")
+    | none => (s, "bad-op")
+  | ["get", n] => let (s', r) := s.read n; (s', showRec r)
+  | ["disk", n] => (s, showRec (s n).disk)
+  | ["evict", n] => (s.evict n, "ok")
+  | ["remove", n] => (s.remove n, "ok")
+  | _ => (s, "bad-op")
+
+inductive DSt
+  | node (s : St)
+  | si (s : SICache.St)
+
+def resetD (hdr : List String) : DSt :=
+  match hdr with
+  | "si" :: _ => .si (fun _ => {})
+  | _ => .node (reset hdr)
+
+def stepD (s : DSt) (ws : List String) : DSt × String :=
+  match s with
+  | .node s => let (s', o) := step s ws; (.node s', o)
+  | .si s => let (s', o) := stepSI s ws; (.si s', o)
+
+def run : IO Unit := runLoop resetD stepD
 end Sop.Driver.C20
 
 def main : IO Unit := Sop.Driver.C20.run
